@@ -266,7 +266,7 @@ def run(ctx: Ctx):
         for rs in g["restarts"]:
             fk = g["files"][rs["k"]]
             at, _ = c08.abs_times(fk)
-            rstep = int(round((at[-1] - sc["start"]) / c08.scen.DT))
+            rstep = abs(int(round((at[-1] - sc["start"]) / c08.scen.DT)))
             used = set(p for f in g["files"][: rs["k"] + 1] for p in f["pid"])      # every pid the files up to the restart show
             pos = len(fk["pid"]) - fk["count"][-1] if fk["count"] else 0
             survivors = set(fk["pid"][pos:])
